@@ -121,6 +121,8 @@ template <typename P> std::string name1(const World& w, const P& p) { return p ?
 
 std::string block_ids(const El& e);
 std::string extra_fields(const World& w, const El& e);
+std::string show_tm(const Time& t);
+Time parse_tm(const std::string& s);
 
 void snapshot(World& w, std::ostream& out) {
   for (auto const& d : w.docs) {
@@ -369,28 +371,50 @@ std::string run_op(World& w, const std::vector<std::string>& t, std::ostream& ou
     return "ok " + w.name(u.get());
   }
   if (c == "snapshot") { snapshot(w, out); return "ok"; }
+  if (c == "tparse") {   // parseTimecode (function-local static regex objects)
+    Time tm = parseTimecode(t.size() > 1 ? from_hex(t[1]) : std::string());
+    return "ok " + show_tm(tm);
+  }
+  if (c == "tformat") return "ok " + to_hex(formatTimecode(parse_tm(t.at(1))));
   std::string r;
   if (run_op2(w, t, out, r)) return r;
   return "bad-command";
 }
 }  // namespace
 
-int run_heap(std::istream& in, std::ostream& out, int, char**) {
-  std::string line;
-  auto w = std::make_unique<World>();
-  bool dead = false;
-  while (std::getline(in, line)) {
+// one case (its lines, without the final "end") on a fresh World
+std::string run_heap_case(const std::vector<std::string>& lines) {
+  std::ostringstream out;
+  World w;
+  for (auto const& line : lines) {
     auto t = split_ws(line);
     if (t.empty()) continue;
-    if (t[0] == "end") { out << "end\n"; w = std::make_unique<World>(); dead = false; continue; }
     if (t[0] == "case") { out << line << "\n"; continue; }
-    if (dead) { out << "skipped\n"; continue; }
     try {
-      std::string r = run_op(*w, t, out);
+      std::string r = run_op(w, t, out);
       out << r << "\n";
     } catch (const std::exception& e) {
       out << "exn " << classify(e) << "\n";
     }
   }
+  out << "end\n";
+  return out.str();
+}
+
+std::vector<std::vector<std::string>> read_cases(std::istream& in) {
+  std::vector<std::vector<std::string>> cases;
+  std::vector<std::string> cur;
+  std::string line;
+  while (std::getline(in, line)) {
+    if (split_ws(line).empty()) continue;
+    if (line == "end") { cases.push_back(cur); cur.clear(); continue; }
+    cur.push_back(line);
+  }
+  if (!cur.empty()) cases.push_back(cur);
+  return cases;
+}
+
+int run_heap(std::istream& in, std::ostream& out, int, char**) {
+  for (auto const& c : read_cases(in)) out << run_heap_case(c);
   return 0;
 }
